@@ -688,6 +688,19 @@ func (a *zvArchive) classifyDecoded(d []byte, derr error) (string, bool) {
 		return "member-data-or-name-altered", true
 	}
 	if len(d) > len(t) && bytes.Equal(d[:len(t)], t) {
+		// bytes behind the end-of-archive marker: if they hold a well-formed member header (block-aligned,
+		// non-empty name, valid checksum) the archive "contains an unexpected member"; anything else is junk
+		// behind the archive, which the property does not speak about
+		extra := d[len(t):]
+		for off := 0; off+zvBlk <= len(extra); off += zvBlk {
+			h := extra[off : off+zvBlk]
+			if h[0] == 0 || zvIsZero(h) {
+				continue
+			}
+			if sum, ok := zvOctal(h[148:156]); ok && sum == zvHdrSum(h) {
+				return "same-tar-plus-extra-member-behind-end-marker", true
+			}
+		}
 		return "same-tar-plus-extra-bytes", false
 	}
 	return "only-nonessential-bytes-differ", false
@@ -996,6 +1009,22 @@ func (a *zvArchive) gzStructural(rng *core.Rand) []zvGzStruct {
 	add("gz-append", "append an empty gzip member", zvCat(a.Gz, zvGzip(nil)))
 	add("gz-append", "append the same gzip stream again", zvCat(a.Gz, a.Gz))
 	add("gz-append", "append a gzip member holding 512 zero bytes", zvCat(a.Gz, zvGzip(make([]byte, 512))))
+	// members smuggled in behind the end-of-archive marker, inside the same gzip stream and as a further gzip
+	// member (the sizes move the injected bytes across the buffer boundaries of the readers)
+	tmpl := a.Tar[a.Lay.M[0].Hdr:]
+	end := make([]byte, 2*zvBlk)
+	for _, n := range []int{0, 1, 100, 511, 512, 513, 1500, 3000, 4096, 5000, 9000} {
+		m := zvMakeMember(tmpl, "extra.bin", bytes.Repeat([]byte{'x'}, n), 0, nil)
+		add("gz-inject-member", fmt.Sprintf("extra member extra.bin (%d bytes) behind the end-of-archive marker, same gzip stream", n), zvGzip(zvCat(a.Tar, m, end)))
+		add("gz-inject-member", fmt.Sprintf("extra member extra.bin (%d bytes) in an appended gzip member", n), zvCat(a.Gz, zvGzip(zvCat(m, end))))
+	}
+	st := a.member(1)
+	add("gz-inject-member", "copy of the second member behind the end-of-archive marker, same gzip stream", zvGzip(zvCat(a.Tar, st, end)))
+	add("gz-inject-member", "a whole second archive (re-encoded) appended as a gzip member", zvCat(a.Gz, zvGzipWith(a.Tar, gzip.BestSpeed, nil)))
+	for _, n := range []int{1, 100, 512, 3000, 5000} {
+		add("gz-inject-junk", fmt.Sprintf("%d non-zero junk bytes behind the end-of-archive marker, same gzip stream", n), zvGzip(zvCat(a.Tar, bytes.Repeat([]byte{0xA5}, n))))
+		add("gz-inject-junk", fmt.Sprintf("%d zero bytes behind the end-of-archive marker, same gzip stream", n), zvGzip(zvCat(a.Tar, make([]byte, n))))
+	}
 	for _, lv := range []int{gzip.NoCompression, gzip.BestSpeed, gzip.BestCompression, gzip.HuffmanOnly} {
 		add("gz-reencode", fmt.Sprintf("same tar, compression level %d", lv), zvGzipWith(a.Tar, lv, nil))
 	}
